@@ -21,7 +21,7 @@ EXITS = (ast.Raise, ast.Return, ast.Continue, ast.Break)
 def always_exits(stmts: List[ast.stmt]) -> bool:
     """True when control never falls off the end of this statement list."""
     for s in stmts:
-        if isinstance(s, EXITS):
+        if isinstance(s, EXITS) or getattr(s, '_noreturn', False):
             return True
         if isinstance(s, ast.If) and s.orelse and always_exits(s.body) and always_exits(s.orelse):
             return True
@@ -38,7 +38,7 @@ def always_exits(stmts: List[ast.stmt]) -> bool:
 
 def always_raises(stmts: List[ast.stmt]) -> bool:
     for s in stmts:
-        if isinstance(s, ast.Raise):
+        if isinstance(s, ast.Raise) or getattr(s, '_noreturn', False):      # (a call of a helper that never returns: model N23)
             return True
         if isinstance(s, (ast.Return, ast.Continue, ast.Break)):
             return False
